@@ -36,8 +36,8 @@ T_New == /\ IsEv("new")
 DiffOk(before, after, d) ==
   IF "none" \in DOMAIN d THEN FALSE        \* every recorded commit raises the serial
   ELSE /\ d.s = SerialOf(before.soa) /\ d.e = SerialOf(after.soa)
-       /\ SortS(BagMinus(before.recs \o before.soa, d.rem) \o d.add) = after.recs \o after.soa
-       /\ BagMinus(d.rem, before.recs \o before.soa) = <<>>
+       /\ SortS(BagMinus(SortS(before.recs \o before.soa), d.rem) \o d.add) = SortS(after.recs \o after.soa)
+       /\ BagMinus(d.rem, SortS(before.recs \o before.soa)) = <<>>
 
 T_Commit == /\ IsEv("commit")
             /\ LET b == MV(Rec[l].before)
